@@ -36,7 +36,8 @@ TRUSTED = ['A1 float == real; A2 object arrays == float arrays; dependency contr
 ASSUMPTIONS = ['finite estimates (no NaN); steps positive']
 NOT_DECIDED = ['"true error never exceeds a fixed multiple of the estimate" for arbitrary analytic f (heuristic, not a theorem); '
                'the rounding floor']
-BOUNDED = ['tables of at most 6 x 3 entries in the mechanism contracts (the rules are column-wise and uniform in the size)']
+BOUNDED = ['honesty-concrete: the inequality |result - exact| <= 100*error_estimate + 1e-5*scale*10**n executed on 288 concrete configurations (exp, sin, 1/x; n = 1..4; 4 methods; default and five user-supplied step settings; 3 points each) in floating point -- a stand-in for the undecided honesty clause, never counted as proved; the configurations that fail on the unchanged tree are known finding F12',
+           'tables of at most 6 x 3 entries in the mechanism contracts (the rules are column-wise and uniform in the size)']
 QUANTIFIED = 'all table entries, points, steps and function values: universally quantified'
 
 
@@ -49,6 +50,7 @@ def groups(tier):
     out += [('penalty[%d,%d]' % kn, ('penalty',) + kn) for kn in [(4, 2), (5, 1), (3, 3)]]
     out += [('argmin[%d]' % k, ('argmin', k)) for k in (2, 3, 4, 5)]
     out += [('richardson-estimate', ('rich',))]
+    out.append(('honesty-concrete', ('honesty',)))
     # "a near-zero error estimate is never returned together with a wrong value": the value half of that sentence is the
     # table contract of the vector classes (C03, C04), which the record groups above take as given -- discharged here too
     from . import C03
@@ -259,7 +261,21 @@ def run_rich():
     return {}
 
 
+def run_honesty():
+    """bounded stand-in for the (otherwise undecided) honesty clause: 288 concrete configurations executed with the real
+    numpy; one obligation per (function, n, method, step options) so that the known finding F12 can name exactly the
+    configurations that fail on the unchanged tree"""
+    import numdifftools as nd
+    from ndvc.concrete import honesty_cases
+    res = honesty_cases(nd)
+    for name, (ok, detail) in sorted(res.items()):
+        solve.fact(name + ':true-error<=100*estimate+rounding-floor', ok, kind='bounded', note=str(detail)[:200] if detail else '')
+    return dict(honesty_cases=len(res))
+
+
 def run_group(args):
+    if args[0] == 'honesty':
+        return run_honesty()
     if args[0] == 'dep':
         import importlib
         return getattr(importlib.import_module('props.' + args[1]), args[2])(*args[3], **args[4])
@@ -279,6 +295,8 @@ def replay_case(ob):
         if nm.startswith(pre):
             import importlib
             return importlib.import_module('props.' + modname).replay_case(dict(ob, name=orig + nm[len(pre):]))
+    if nm.startswith('honesty-concrete/'):
+        return dict(kind='C02.honesty-concrete', name=nm.split('/', 1)[1].rsplit(':', 1)[0])
     mm = re.search(r'record\[(\w+)\]/(\w+)', nm)
     if mm:
         return dict(kind='C02.record', klass=mm.group(1), method=mm.group(2), toggled='set-after' in nm)
